@@ -322,3 +322,36 @@ PROPS["C03"] = dict(
     assumptions=["2^32 pushes are out of reach: counter wrap is reached through the hook that sets the counter"],
     trusted_base=TB_COMMON + ["hook: State::verif_from_parts / verif_parts, DryocStream::verif_from_state / verif_state (feature verif_hooks)"],
 )
+
+# ---------------------------------------------------------------------------------------------- C04
+
+
+def _c04_floors(m, tier):
+    out = []
+    if len(m.cov.get("entry_point", {})) < 17:
+        out.append("only %d of 17 entry-point groups driven" % len(m.cov.get("entry_point", {})))
+    out += need(m, "stream_tag_byte", range(256), "authentic stream messages with every tag byte")
+    out += need(m, "content_class", ["zeros", "ff", "random", "valid_prefix", "valid_mutated", "valid"], "content classes")
+    out += need(m, "pwhash_family", ["grammar", "structural_mutation", "parameter_list", "base64", "random_bytes(lossy utf8)", "separator_runs", "valid", "valid_one_char_mutated"], "password-string families")
+    if len(m.cov.get("shorter_than_overhead", {})) < 16:
+        out.append("inputs shorter than the fixed overhead not presented to every entry point")
+    if not m.cov.get("pwhash_verify_reached"):
+        out.append("password verification (bounded cost) never reached")
+    return out
+
+
+PROPS["C04"] = dict(
+    level="exploration",
+    technique="runtime totality monitoring: every attacker-facing entry point executed on generated byte strings (every length x content class, every stream tag byte, grammar-based password strings) under catch_unwind, a fatal-signal reporter and a counting allocator, in an overflow-checked and a plain release build",
+    level_text="17 groups of opening / verifying / parsing entry points (classic and object API) receive every input length 0..=2*overhead+64 in six content classes (zeros, 0xff, random, valid prefix, "
+               "valid with one bit flipped, valid), authentic stream messages with all 256 tag bytes through both pull APIs, and password-hash strings from a field grammar with structural, numeric, "
+               "base64 and unicode mutations. A panic, a fatal signal, an arithmetic-overflow panic (overflow-checked build) or a single allocation request above 64*len+1MiB is a violation. "
+               "Run twice because an unchecked subtraction panics in one build and requests ~2^64 bytes in the other.",
+    level_note="Password verification is only attempted when every m=/t= number in the string is within the bounded-cost cap (m<=1024 KiB, t<=3), as the property's 'bounded cost parameters' allows; parsing paths run on all strings.",
+    runs=lambda tier: [dict(build="st", monitor="c04"), dict(build="st-rel", monitor="c04")],
+    floors=_c04_floors,
+    rule="a case is (entry-point group, input bytes); distinct by (entry point, length, content class, repetition) / (tag byte, message length) / generated string index; "
+         "non-trivial: all (every call reaches the function under test with caller-side buffers sized as documented)",
+    assumptions=["caller-side output buffers are sized as the documentation prescribes (len - overhead, saturating at 0)", "authentic inputs are produced by dryoc's own encrypt/sign/push functions (decided byte-exact by C01/C03/C06)"],
+    trusted_base=TB_COMMON + ["std::panic::catch_unwind, a SIGSEGV/SIGABRT/SIGBUS/SIGILL/SIGFPE reporter and a counting GlobalAlloc in the harness"],
+)
